@@ -26,6 +26,7 @@ package tcpassembly
 //@   requires isSeq(s) && isSeq(t) && 0 <= n && n < 536870912
 //@   requires -536870912 < sdiff32(s, t) && sdiff32(s, t) < 536870912
 //@   ensures antisym && zero && shift
+
 func verifLemmaSeq(s, t Sequence, n int) (antisym, zero, shift bool) {
 	antisym = s.Difference(t) == -t.Difference(s)
 	zero = (s.Difference(t) == 0) == (s == t)
